@@ -154,11 +154,15 @@ pub enum Item {
     /// every direct branch to the item lands on the FIRST BYTE OF THE IMMEDIATE.  On the other
     /// ISAs the item is the plain instruction `outer`.
     Overlap { outer: Simple, payload: Vec<Simple>, end: u8, cc: u8, follow: Vec<Simple> },
+    /// x86 / amd64: a REP-PREFIXED STRING INSTRUCTION with a small count, possibly ZERO (the
+    /// instruction then does nothing at all): `lea edi, [ebp+0x40]`, `mov ecx, count`, then
+    /// (op % 4) 0 `rep stosb`, 1 `rep stosd`, 2 `repne scasb`, 3 `repe scasb`.  One nop elsewhere.
+    Rep { count: u8, op: u8 },
 }
 
 impl Item {
     pub fn is_transfer(&self) -> bool {
-        !matches!(self, Item::S(_) | Item::SetDisp { .. } | Item::Junk { .. } | Item::Overlap { .. })
+        !matches!(self, Item::S(_) | Item::SetDisp { .. } | Item::Junk { .. } | Item::Overlap { .. } | Item::Rep { .. })
     }
     pub fn ends_flow(&self) -> bool {
         matches!(self, Item::Jmp { .. } | Item::Dispatch { .. } | Item::Ret { .. })
@@ -207,6 +211,9 @@ pub struct Insn {
     /// decoding); such instructions follow the sequential ones in `insns`
     pub inner: bool,
     pub text: String,
+    /// mips conditional branch: (test 0 beq, 1 bne, 2 blez, 3 bgtz, 4 bltz, 5 bgez; rs; rt) - the
+    /// architectural decision is taken on the register values BEFORE the delay slot executes
+    pub mips_test: Option<(u8, u8, u8)>,
 }
 
 #[derive(Clone, Debug)]
@@ -358,7 +365,7 @@ fn rel(target: u64, next: u64) -> i64 {
 // ---------------------------------------------------------------------------------------------
 // mips
 
-fn mips_rname(r: u8) -> String {
+pub fn mips_rname(r: u8) -> String {
     const N: [&str; 32] = [
         "$zero", "$at", "$v0", "$v1", "$a0", "$a1", "$a2", "$a3", "$t0", "$t1", "$t2", "$t3", "$t4", "$t5", "$t6", "$t7", "$s0", "$s1", "$s2", "$s3", "$s4", "$s5", "$s6", "$s7", "$t8", "$t9",
         "$k0", "$k1", "$gp", "$sp", "$fp", "$ra",
@@ -469,10 +476,11 @@ struct Raw {
     is_slot: bool,
     inner: bool,
     text: String,
+    mips_test: Option<(u8, u8, u8)>,
 }
 
 fn raw(bytes: Vec<u8>, kind: Kind, target: Option<u64>, text: String) -> Raw {
-    Raw { bytes, kind, target, is_slot: false, inner: false, text }
+    Raw { bytes, kind, target, is_slot: false, inner: false, text, mips_test: None }
 }
 
 fn word(isa: Isa, w: u32) -> Vec<u8> {
@@ -490,7 +498,7 @@ fn mips_slot(isa: Isa, slot: &Simple, forbid: Option<u8>) -> Raw {
         _ => slot.clone(),
     };
     let (w, text) = mips_simple(isa, &s);
-    Raw { bytes: word(isa, w), kind: Kind::Plain, target: None, is_slot: true, inner: false, text }
+    Raw { bytes: word(isa, w), kind: Kind::Plain, target: None, is_slot: true, inner: false, text, mips_test: None }
 }
 
 /// `cands` as far as they fit into `cap` bytes, then 1-byte nops
@@ -625,7 +633,13 @@ fn emit(isa: Isa, item: &Item, at: u64, tgt: u64, near: bool, disp: [u64; 2]) ->
             Item::Cond { cc, .. } if !near && *cc >= 16 => {
                 // the count-register branches exist with an 8-bit displacement only: jecxz
                 // (32-bit mode) and loop
-                let (op, name) = if *cc == 16 && isa == Isa::X86 { (0xe3u8, "jecxz") } else { (0xe2u8, "loop") };
+                // (18 loope, 19 loopne: the loop is also left when ZF says so, the count still non-zero)
+                let (op, name) = match *cc {
+                    16 if isa == Isa::X86 => (0xe3u8, "jecxz"),
+                    18 => (0xe1u8, "loope"),
+                    19 => (0xe0u8, "loopne"),
+                    _ => (0xe2u8, "loop"),
+                };
                 vec![raw(vec![op, rel(tgt, at + 2) as i8 as u8], Kind::Cond, Some(tgt), format!("{} 0x{:x}", name, tgt))]
             }
             Item::Cond { cc, .. } => {
@@ -678,6 +692,23 @@ fn emit(isa: Isa, item: &Item, at: u64, tgt: u64, near: bool, disp: [u64; 2]) ->
             Item::Ret { .. } => vec![raw(vec![0xc3], Kind::Ret, None, "ret".into())],
             Item::Junk { bytes } => vec![raw(bytes.clone(), Kind::Junk, None, format!("junk {:02x?}", bytes))],
             Item::Overlap { .. } => x86_overlap(isa, item, at).0,
+            Item::Rep { count, op } => {
+                let lea = if m64 { vec![0x48, 0x8d, 0x7d, 0x40] } else { vec![0x8d, 0x7d, 0x40] };
+                let c = (*count % 4) as u32;
+                let mut mov = vec![0xb9];
+                mov.extend_from_slice(&c.to_le_bytes());
+                let (b, t): (Vec<u8>, &str) = match *op % 4 {
+                    0 => (vec![0xf3, 0xaa], "rep stosb"),
+                    1 => (vec![0xf3, 0xab], "rep stosd"),
+                    2 => (vec![0xf2, 0xae], "repne scasb"),
+                    _ => (vec![0xf3, 0xae], "repe scasb"),
+                };
+                vec![
+                    raw(lea, Kind::Plain, None, format!("lea {}, [{}+0x40]", x86_rname(m64, true, 7), x86_rname(m64, true, 5))),
+                    raw(mov, Kind::Plain, None, format!("mov ecx, 0x{:x}", c)),
+                    raw(b, Kind::Plain, None, t.to_string()),
+                ]
+            }
         },
         Isa::Mips | Isa::Mipsel => {
             let off = |a: u64| -> u16 { ((rel(tgt, a + 4) >> 2) as i16) as u16 };
@@ -688,11 +719,15 @@ fn emit(isa: Isa, item: &Item, at: u64, tgt: u64, near: bool, disp: [u64; 2]) ->
                 }
                 Item::Cond { cc, ra, rb, slot, .. } => {
                     let rs = isa.reg(*ra);
-                    let rt = isa.reg(*rb);
+                    // cc 12..: the second operand of beq / bne is $zero (beqz / bnez)
+                    let rt = if *cc >= 12 { 0 } else { isa.reg(*rb) };
                     let (op, mn, two) = [(Op::Beq, "beq", true), (Op::Bne, "bne", true), (Op::Blez, "blez", false), (Op::Bgtz, "bgtz", false), (Op::Bltz, "bltz", false), (Op::Bgez, "bgez", false)][*cc as usize % 6];
-                    let w = encode(op, &Fields { rs, rt: if two { rt } else { 0 }, imm: off(at), ..Default::default() });
+                    let rt = if two { rt } else { 0 };
+                    let w = encode(op, &Fields { rs, rt, imm: off(at), ..Default::default() });
                     let t = if two { format!("{} {}, {}, 0x{:x}", mn, mips_rname(rs), mips_rname(rt), tgt) } else { format!("{} {}, 0x{:x}", mn, mips_rname(rs), tgt) };
-                    vec![raw(word(isa, w), Kind::Cond, Some(tgt), t), mips_slot(isa, slot, None)]
+                    let mut b = raw(word(isa, w), Kind::Cond, Some(tgt), t);
+                    b.mips_test = Some((*cc % 6, rs, rt));
+                    vec![b, mips_slot(isa, slot, None)]
                 }
                 Item::Jmp { abs, slot, .. } => {
                     // `j` can only reach the 256 MB region of its delay slot
@@ -710,7 +745,7 @@ fn emit(isa: Isa, item: &Item, at: u64, tgt: u64, near: bool, disp: [u64; 2]) ->
                     let w2 = encode(Op::Bne, &Fields { rs: c, rt: 0, imm: off(at + 4), ..Default::default() });
                     vec![
                         raw(word(isa, w1), Kind::Plain, None, format!("addiu {0}, {0}, -1", mips_rname(c))),
-                        raw(word(isa, w2), Kind::Cond, Some(tgt), format!("bnez {}, 0x{:x}", mips_rname(c), tgt)),
+                        Raw { mips_test: Some((1, c, 0)), ..raw(word(isa, w2), Kind::Cond, Some(tgt), format!("bnez {}, 0x{:x}", mips_rname(c), tgt)) },
                         mips_slot(isa, slot, None),
                     ]
                 }
@@ -729,6 +764,7 @@ fn emit(isa: Isa, item: &Item, at: u64, tgt: u64, near: bool, disp: [u64; 2]) ->
                     let w = encode(Op::Jr, &Fields { rs: 31, ..Default::default() });
                     vec![raw(word(isa, w), Kind::Ret, None, "jr $ra".into()), mips_slot(isa, slot, Some(31))]
                 }
+                Item::Rep { .. } => vec![raw(word(isa, 0), Kind::Plain, None, "nop".into())],
                 Item::Junk { bytes } => {
                     let mut b = bytes.clone();
                     b.resize(4, 0xff);
@@ -786,6 +822,7 @@ fn emit(isa: Isa, item: &Item, at: u64, tgt: u64, near: bool, disp: [u64; 2]) ->
                     }
                 }
                 Item::Ret { .. } => vec![raw(word(isa, a64_asm::br_reg(2, 30)), Kind::Ret, None, "ret".into())],
+                Item::Rep { .. } => vec![raw(word(isa, a64_asm::nop()), Kind::Plain, None, "nop".into())],
                 Item::Junk { bytes } => {
                     let mut b = bytes.clone();
                     b.resize(4, 0);
@@ -881,7 +918,7 @@ pub fn assemble(isa: Isa, base: u64, items: &[Item], entry_item: usize, disp_ite
         };
         if isa.is_x86() && matches!(it, Item::Overlap { .. }) {
             for (off, r) in x86_overlap(isa, it, at).1 {
-                inner_insns.push(Insn { addr: at + off, bytes: r.bytes, kind: r.kind, target: r.target, item: i, is_slot: false, inner: true, text: r.text });
+                inner_insns.push(Insn { addr: at + off, bytes: r.bytes, kind: r.kind, target: r.target, item: i, is_slot: false, inner: true, text: r.text, mips_test: None });
             }
         }
         let mut a = at;
@@ -891,7 +928,7 @@ pub fn assemble(isa: Isa, base: u64, items: &[Item], entry_item: usize, disp_ite
             }
             let len = r.bytes.len() as u64;
             bytes.extend_from_slice(&r.bytes);
-            insns.push(Insn { addr: a, bytes: r.bytes, kind: r.kind, target: r.target, item: i, is_slot: r.is_slot, inner: false, text: r.text });
+            insns.push(Insn { addr: a, bytes: r.bytes, kind: r.kind, target: r.target, item: i, is_slot: r.is_slot, inner: false, text: r.text, mips_test: r.mips_test });
             a += len;
         }
     }
